@@ -75,6 +75,8 @@ func (s *session) judge(img *image) {
 		r.fault("crash-before-sync", 1)
 	case "after":
 		r.fault("crash-after-sync", 1)
+	case "write":
+		r.fault("crash-after-write-in-mid-save", 1)
 	default:
 		r.fault("crash-between-ops", 1)
 	}
